@@ -96,8 +96,8 @@ class EstimCase:
         self.cov = cov
         self.log = log
         EE = repo.mod('src.error_estimator')
-        config = {'kind': 'param', 'curve': run['curve'], 'space': None,
-                  'time': run.get('time')}
+        config = {'kind': 'param', 'curve': run['curve'],
+                  'space': run.get('space'), 'time': run.get('time')}
         self.case = meshsim.MeshCase(config)
         self.mesh = self.case.mesh
         self.gamma = self.mesh.gamma_space
@@ -388,6 +388,15 @@ class EstimCase:
             return
         self.cov.inc('patches_judged.' + which + '.' + kind)
         floor = 1e-13 * min(1.0, e.h_t * e.h_x)
+        if match is not None and which == 'space':
+            # what a known-findings entry may key on: the union patch spans
+            # at least ~half of the circle (coarsest meshes), and the error
+            # is still of the size of the quadrature error there
+            arc = e.h_x + (nbr.h_x if nbr is not e else 0.0)
+            match = dict(match,
+                         coarse_union_patch=bool(
+                             self.run['curve'] == 'Circle' and arc >= 3.0),
+                         marginal=bool(abs(code - ref) < 1e-3 * abs(ref)))
         if abs(code - ref) > tol * abs(ref) + floor:
             self.viol(
                 'patch-value', site + '/' + kind, {
@@ -408,7 +417,7 @@ class EstimCase:
         parametrisation are carried across the seam and vice versa)."""
         curve = self.run['curve']
         fam = self.spec['family']
-        if curve == 'LShape' or fam == 'poly':
+        if curve == 'LShape' or fam == 'poly' or self.run.get('space'):
             self.cov.inc('skipped.op_symmetry_not_applicable')
             return
         from .refmesh import S
@@ -616,9 +625,14 @@ def gen_run(seed, params):
         time = rng.choice([[0.0, 0.25, 1.0], [0.0, 0.5, 0.75, 1.5],
                            [0.0, 0.3, 1.0]])
     graded = rng.random() < params.get('p_graded', 0.12)
+    space = None
+    if curve == 'Circle' and rng.random() < 0.12:
+        # three elements around the circle: the coarsest admissible mesh
+        space = [0.0, 2 * np.pi / 3, 4 * np.pi / 3, 2 * np.pi]
+        graded = False
     hist, n = gen_history(rng, curve, rng.choice(params.get(
         'sizes', [4, 8, 12, 16, 24])), graded=graded and rng.choice(
-            [True, 'deep']), time=time)
+            [True, 'deep']), time=time, space=space)
     style = rng.random()
     odd = [1, 3, 5, 7, 9, 11, 13, 15, 17, 19]
     if style < 0.45:
@@ -669,6 +683,8 @@ def gen_run(seed, params):
            'residual': residual, 'ops': ops}
     if time is not None:
         run['time'] = time
+    if space is not None:
+        run['space'] = space
     return run
 
 
